@@ -488,7 +488,7 @@ Section Sound.
               replace (S (length pre)) with (length (pre ++ [$"-m"])) by (rewrite app_length; cbn [length]; lia).
               apply nth_error_mid. }
           destruct (str_eqb_spec m $"calendar") as [E|]; [|discriminate HA].
-          subst m. cbn [pyargs]. vm_compute. reflexivity.
+          subst m. cbn [pyargs]. vm_compute. split; reflexivity.
   Qed.
 End Sound.
 
@@ -508,6 +508,7 @@ Ltac refute_with r fin :=
 Ltac fin_false H := exact H.
 Ltac fin_flag1 H := let E := fresh in destruct H as [E _]; discriminate E.
 Ltac fin_flag2 H := let E := fresh in destruct H as [_ [E _]]; discriminate E.
+Ltac fin_mod H := let E := fresh in destruct H as [_ E]; discriminate E.
 Ltac fin_file H :=
   let tok := fresh in let p := fresh in let E1 := fresh in let E2 := fresh in let E3 := fresh in
   destruct H as [_ [_ [tok [p [E1 [E2 E3]]]]]]; injection E1 as <-; injection E2 as <-;
@@ -520,7 +521,9 @@ Proof. refute_with (RFile 2 (mkfl false true false)) fin_flag1. Qed.
 Lemma refuted_skip_line : unsound [$"python"; $"-x"; $"s.py"].         (* first source line skipped *)
 Proof. refute_with (RFile 2 (mkfl false false true)) fin_flag2. Qed.
 Lemma refuted_cluster_c : unsound [$"python"; $"-Bc"; $"s.py"].        (* the token is executed as code *)
-Proof. refute_with (RCommand 2 $"s.py") fin_false. Qed.
+Proof. refute_with (RCommand 2 $"s.py" fl0) fin_false. Qed.
+Lemma refuted_i_m : unsound [$"python"; $"-i"; $"-m"; $"calendar"].    (* -m is looked at before -i: REPL after calendar *)
+Proof. refute_with (RModule 3 $"calendar" (mkfl false true false)) fin_mod. Qed.
 Lemma refuted_arg_help : unsound [$"python"; $"-W"; $"-h"; $"evil.py"].  (* -h is the argument of -W *)
 Proof. refute_with (RFile 3 fl0) fin_file. Qed.
 Lemma refuted_arg_m : unsound [$"python"; $"-W"; $"-m"; $"calendar"].  (* runs the file ./calendar *)
